@@ -7,7 +7,7 @@
 // over k lines adds to the batch output over k-1 lines.  Grid: every sequence of up to 4 lines over a 7-line pool (one
 // non-admitted) x 7 aggregate statements (HAVING that a group can stop satisfying, DISTINCT, PERCENTILE) and 6 plain / DISTINCT statements, every prefix k.
 // Also: TEXT aggregates whose argument is NULL on the first lines of a group (STRING_AGG, MIN / MAX, ARRAY_AGG, COUNT(DISTINCT))
-// over a 5-line pool; a split-pattern table in which blank and whitespace lines are rows.
+// over a 5-line pool; INNER / OUTER JOIN statements (4 aggregate, 4 plain) over every sequence of up to 3 of 5 lines (with, without partner, NULL key); a split-pattern table in which blank and whitespace lines are rows.
 include!("verif_grid_common.rs");
 include!("verif_grid_qcommon.rs");
 
@@ -84,5 +84,27 @@ fn verif_grid() {
         for (si, st) in agg3.iter().enumerate() { let b1 = base.clone(); g.case(&format!("split-aggregate-b{}-s{}", bi, si), move || check_in(def3, st, true, &b1)); }
         for (si, st) in plain3.iter().enumerate() { let b1 = base.clone(); g.case(&format!("split-plain-b{}-s{}", bi, si), move || check_in(def3, st, false, &b1)); }
     }
+    // statements with a join, the joined file read before the first line (ExecutionEngine::with_executed_joined_table): lines with a partner,
+    // without one and with a NULL key; INNER and OUTER
+    let joined = write_temp("joined", b"h=alpha site=eu\nh=beta site=us\n");
+    let def4 = "CREATE TABLE t(line = '^u=(\\\\w+) h=(\\\\w*) c=([0-9]*)$', line[1] => user TEXT, line[2] => host TEXT, line[3] => code INT); \
+                CREATE TABLE hosts(line = '^h=(\\\\w+) site=(\\\\w+)$', line[1] => name TEXT, line[2] => site TEXT);";
+    let pool4 = ["u=ann h=alpha c=1", "u=bob h=beta c=2", "u=cy h=gamma c=500", "u=dee h= c=7", "u=eve h=alpha c="];
+    let mut join_statements: Vec<(String, bool)> = Vec::new();
+    for kind in ["INNER", "OUTER"] {
+        let from = format!("FROM t {} JOIN hosts::'{}' ON t.host = hosts.name", kind, joined.display());
+        join_statements.push((format!("SELECT COUNT(*) AS n, SUM(code) AS s, COUNT(hosts.site) AS c {}", from), true));
+        join_statements.push((format!("SELECT hosts.site, COUNT(*) AS n, SUM(code) AS s {} GROUP BY hosts.site", from), true));
+        join_statements.push((format!("SELECT user, hosts.site {}", from), false));
+        join_statements.push((format!("SELECT user {} WHERE hosts.site IS NULL", from), false));
+    }
+    for (bi, base) in sequences(&pool4, 3).into_iter().enumerate() {
+        if base.is_empty() { continue; }
+        for (si, (st, aggregate)) in join_statements.iter().enumerate() {
+            let (b1, st1, aggregate) = (base.clone(), st.clone(), *aggregate);
+            g.case(&format!("join-b{}-s{}", bi, si), move || check_in(def4, &st1, aggregate, &b1));
+        }
+    }
+    let _ = std::fs::remove_file(&joined);
     g.done();
 }
